@@ -344,11 +344,18 @@ func ZZ_C06_H3() {
 	hit := -1
 	var got []string
 	fullPath := ""
+	rewrite := zz.Choose("handlerRewritesURI", 2) == 1
 	for j, r := range set {
 		rid := j
 		e.GET(r, func(c context.Context, ctx *app.RequestContext) {
 			hit = rid
 			fullPath = ctx.FullPath()
+			if rewrite {
+				// the handler rewrites the request URI before it looks at the parameters: they
+				// are values of their own, not views into the URI's buffers
+				ctx.Request.URI().SetPath("/ZZZZZZ")
+				_ = ctx.Request.URI().Path()
+			}
 			for _, p := range ctx.Params {
 				got = append(got, p.Value)
 			}
@@ -363,14 +370,15 @@ func ZZ_C06_H3() {
 	ctx.Request.SetHost("h")
 	ctx.Request.Header.SetMethod("GET")
 	ctx.Request.SetRequestURI("/" + string(tail))
-	e.ServeHTTP(context.Background(), ctx)
-	// the path the engine is documented to match
+	// the path the engine is documented to match (taken before the handler may rewrite the URI)
 	var path string
 	if useRaw {
 		path = string(ctx.Request.URI().PathOriginal())
 	} else {
 		path = string(ctx.Request.URI().Path())
 	}
+	decodedLen := len(ctx.Request.URI().Path())
+	e.ServeHTTP(context.Background(), ctx)
 	if removeExtra {
 		// documented: the path that is matched is the cleaned one (CleanPath is C07's subject)
 		path = utils.CleanPath(path)
@@ -383,7 +391,7 @@ func ZZ_C06_H3() {
 	wi, wv := zzRefMatch(cands, path)
 	zz.Cover("reached-assert", true)
 	zz.Cover("matched-with-param", wi >= 0 && len(wv) > 0)
-	zz.Cover("raw-path-with-escape", useRaw && wi >= 0 && len(path) != len(string(ctx.Request.URI().Path())))
+	zz.Cover("raw-path-with-escape", useRaw && wi >= 0 && len(path) != decodedLen)
 	if wi < 0 {
 		zz.Assert("no-route-handler-when-no-pattern-matches", hit == -1)
 		return
